@@ -688,3 +688,97 @@ def r12_step_matches_component(ck, P):
                         ck.violation(R, fn, 'step of component %d at %s' % (a_src[1], x.loc()), '%s advances the coordinate that starts from v.vector[%d] by matrix[%d][%d] per pixel; one pixel to the right moves the transformed point by column 0 of the matrix, i.e. component %d by matrix[%d][0]: all pixels of a scanline after the first are evaluated at the wrong point for any transform whose off-diagonal entries differ' % (fn, a_src[1], i_src[1], i_src[2], a_src[1], a_src[1]), x.loc())
     if n == 0:
         ck.incomplete(R, 'no running coordinate advanced by a matrix entry found in the gradient units')
+
+
+def r13_homogeneous_degrees(ck, P, rid='C13-R13'):
+    """dimensional analysis of the scanline functions of the gradients: the transformed position (x, y, w) and its per-pixel increments are
+    homogeneous coordinates (degree 1: scaling all three by the same factor changes nothing); the gradient's own geometry (centre, radii,
+    angle) lives in the Cartesian plane (degree 0).  A sum or difference needs equal degrees - the centre is subtracted from x / w, not
+    from x - except where the code has established w == 1 (the affine branch)."""
+    R = ck.rule(rid, 'in every gradient scanline function, outside the branch taken only when the homogeneous coordinate is known to be 1 (the test v.vector[2] == pixman_fixed_1 lies in the slice of its condition), every floating-point sum or difference combines values of the same homogeneous degree: vector[i] of the transformed position and matrix[i][0] have degree 1, products add and quotients subtract degrees, fields of the gradient have degree 0 - (x - cx) / w is not x / w - cx', floor=8)
+    n = 0
+    for f in P.functions():
+        if not any(x.op == 'load' and 'pixman_vector.vector' in [str(q) for q in f.path(x.a[0])[1]] for x in f.insts()):
+            continue
+        if not any(x.op in ('fdiv',) for x in f.insts()) or not f.unit.name.endswith('-gradient.c'):
+            continue
+        # the affine condition: branches whose condition slice contains vector[2] == 65536
+        def slice_has_w_test(o, seen=None, d=0):
+            seen = set() if seen is None else seen
+            y = f.v(o)
+            if y is None or y.i in seen or d > 12:
+                return False
+            seen.add(y.i)
+            if y.op == 'icmp' and y.d['p'] in ('eq', 'ne') and any(a[0] == 'c' and int(a[1]) == 65536 for a in y.a):
+                for a in y.a:
+                    z = f.v(f.strip_casts(a))
+                    if z is not None and z.op == 'load':
+                        st = [str(q) for q in f.path(z.a[0])[1]]
+                        if 'pixman_vector.vector' in st and st[-1] == '[2]':
+                            return True
+            return any(slice_has_w_test(a, seen, d + 1) for a in y.a if a and a[0] == 'v')
+        affine_blocks = set()
+        for b in f.blocks:
+            for t, s_ in f.guard_edges(b.id):
+                if t.a and t.op == 'br' and slice_has_w_test(t.a[0]) and t.d['succ'][0] == s_:
+                    affine_blocks.add(b.id)
+        memo = {}
+        def deg(o, d=0):
+            """0, 1, -1 ... ; None = any (constants)"""
+            if o[0] != 'v':
+                return None
+            if o[1] in memo:
+                return memo[o[1]]
+            memo[o[1]] = None
+            y = f.by_id[o[1]]
+            r = None
+            if y.op == 'load':
+                st = [str(q) for q in f.path(y.a[0])[1]]
+                if 'pixman_vector.vector' in st:
+                    r = 1
+                elif 'pixman_transform.matrix' in st and st[-1] == '[0]':
+                    r = 1
+                else:
+                    r = 0 if any('gradient' in q for q in st) else None
+            elif y.op in ('sitofp', 'uitofp', 'fpext', 'fptrunc', 'sext', 'zext', 'trunc', 'fneg'):
+                r = deg(y.a[0], d + 1)
+            elif y.op in ('fmul', 'mul'):
+                a, b = deg(y.a[0], d + 1), deg(y.a[1], d + 1)
+                r = (a or 0) + (b or 0) if (a is not None or b is not None) else None
+            elif y.op in ('fdiv', 'sdiv'):
+                a, b = deg(y.a[0], d + 1), deg(y.a[1], d + 1)
+                r = (a or 0) - (b or 0) if (a is not None or b is not None) else None
+            elif y.op in ('fadd', 'fsub', 'add', 'sub'):
+                a, b = deg(y.a[0], d + 1), deg(y.a[1], d + 1)
+                r = a if a is not None else b
+            elif y.op == 'call' and isinstance(y.callee, str) and y.callee.startswith('llvm.fmuladd'):
+                a, b, c = deg(y.a[0], d + 1), deg(y.a[1], d + 1), deg(y.a[2], d + 1)
+                r = (a or 0) + (b or 0) if (a is not None or b is not None) else c
+            elif y.op in ('phi', 'select'):
+                ds = [deg(a, d + 1) for a in (y.a if y.op == 'phi' else y.a[1:])]
+                ds = [q for q in ds if q is not None]
+                r = max(ds, key=abs) if ds else None
+            memo[o[1]] = r
+            return r
+        for x in f.insts():
+            if x.bb.id in affine_blocks:
+                continue
+            if x.op == 'call' and isinstance(x.callee, str) and x.callee.startswith('llvm.fmuladd'):
+                p1, p2 = deg(x.a[0]), deg(x.a[1])
+                a = (p1 or 0) + (p2 or 0) if (p1 is not None or p2 is not None) else None
+                b = deg(x.a[2])
+            elif x.op in ('fadd', 'fsub'):
+                a, b = deg(x.a[0]), deg(x.a[1])
+            else:
+                continue
+            if a is None or b is None:
+                continue
+            n += 1; ck.saw(f)
+            opn = 'fused multiply-add' if x.op == 'call' else x.op
+            where = '%s: %s at %s (degrees %d, %d)' % (f.name, opn, x.loc(), a, b)
+            if a == b:
+                ck.ok(R, where)
+            else:
+                ck.violation(R, f.name, '%s of degrees %d and %d at %s' % (opn, a, b, x.loc()), '%s combines a value of homogeneous degree %d with one of degree %d in a %s at %s, on a path where the homogeneous coordinate is not known to be 1: a Cartesian quantity of the gradient (centre, radius) is combined with an undivided homogeneous coordinate, so under a projective transform the gradient is evaluated about the wrong point' % (f.name, a, b, opn, x.loc()), x.loc())
+    if n == 0:
+        raise AnalysisBroken('%s: no floating-point sum of values with known homogeneous degrees found in the gradient scanline functions' % rid)
